@@ -123,7 +123,9 @@ func engineOverlay() (map[string][]byte, error) {
 			}
 			ov[filepath.Join(repoDir, dir, "zz_verif_"+filepath.Base(f))] = b
 		}
-		ov[filepath.Join(repoDir, dir, "zz_verif_prelude.go")] = []byte(fmt.Sprintf(enginePrelude, pkgNameOf(dir)))
+		if dir != "zz_verif_model" {
+			ov[filepath.Join(repoDir, dir, "zz_verif_prelude.go")] = []byte(fmt.Sprintf(enginePrelude, pkgNameOf(dir)))
+		}
 	}
 	return ov, nil
 }
